@@ -20,7 +20,8 @@ Oracle : the harness evaluates every condition itself, exactly (Fractions, in th
   body-after-block-end:<how>           body effect in a later tick than the end event of a lexically enclosing Block;
                                        how = armed-before-end | armed-after-end (armed when the block had already ended and
                                        running while the block has not started again) [:user-endblock[:in-alarm] when that
-                                       end came from a user End block request]
+                                       end came from a user End block request; :block-of-interrupt-nested-in-alarm when the
+                                       block belongs to the body of an interrupt that itself sits inside an Alarm]
   no-response:<kind>[:rearm]           armed, W consecutive Running ticks with the condition true on every shown value,
                                        not disarmed (cancel, enclosing block end, re-arming, error) and still no first
                                        body line effect; W = latency measured on the tree under test + 2 ticks
@@ -92,10 +93,21 @@ class Model:
                     if pl.kind in H.INTERRUPT_KINDS:
                         irq_anc = True
                     p = pl.parent
+                # an enclosing block whose nearest interrupt ancestor has an Alarm above it
+                block_in_nested, p, seen_block, seen_irq = False, l.parent, False, False
+                while p is not None:
+                    pl = by_id[p]
+                    if pl.kind == "block" and not seen_irq:
+                        seen_block = True
+                    elif pl.kind in H.INTERRUPT_KINDS and seen_block:
+                        if seen_irq and pl.kind == "alarm":
+                            block_in_nested = True
+                        seen_irq = True
+                    p = pl.parent
                 first = next((c for c in lines if c.parent == l.id), None)
                 sentinel = first.payload if first is not None and first.kind == "mark" and first.node.get("t") is None else None
                 self.irq[l.id] = {"kind": l.kind, "cond": l.node["cond"], "blocks": blocks, "alarm_anc": alarm_anc,
-                                  "nested": irq_anc, "sentinel": sentinel, "text": l.text.strip(), "thr": l.node.get("t")}
+                                  "nested": irq_anc, "block_in_nested": block_in_nested, "sentinel": sentinel, "text": l.text.strip(), "thr": l.node.get("t")}
         for x, q in self.irq.items():
             q["direct_blocks"], q["direct_thr"], q["direct_ends"] = set(), False, set()
             q["has_nested"] = False
@@ -271,6 +283,10 @@ def analyse(case, tr, latency):
                         t_end = ev[last_end_before_arm][0]
                         if any(e[1] == "req" and e[2] == "endblock" and t_end - 2 <= e[0] <= t_end for e in ev[:last_end_before_arm]):
                             ctx = ":user-endblock" + (":in-alarm" if q["alarm_anc"] else "")
+                        elif q["block_in_nested"]:
+                            # the ended block belongs to the body of an interrupt that is itself inside an Alarm: the re-arm of that
+                            # outer Alarm resets the block's flags while the inner body thread is alive
+                            ctx = ":block-of-interrupt-nested-in-alarm"
                     viol("body-after-block-end:%s%s" % ("armed-before-end" if before else "armed-after-end", ctx),
                          "line %s in the body of %s (%s) took effect at tick %d after an enclosing block (%s) had ended (block events %r; armed at tick %d)"
                          % (f[2], x, q["text"], f[1], ",".join(q["blocks"]),
